@@ -8,6 +8,7 @@ CONSTANTS
   NWs = {40}
   SFs <- SFsAll
   SRanges <- RangesH
+  Sides = {1}
   Export = TRUE
 INIT Init
 NEXT Next
